@@ -27,7 +27,9 @@ SIMPLE = ["bool", "int", "int8", "int16", "int32", "int64", "uint", "uint8", "ui
           "string", "any", "*int", "*string", "[]int", "[]string", "map[string]int", "[2]bool", "*[]int", "**int", "*[]*string",
           "[]*int8", "map[string]*uint16", "time.Time", "*time.Time", "Inner", "*Inner", "[]Inner", "MyInt", "MyString",
           "MyInt8", "MyUint16", "*MyUint", "[]MyInt8", "map[string]MyUint16", "*any", "[]*any", "struct{}", "map[string]struct{}", "Empty"]
-OPTS = ["", "", "", ",omitempty", ",omitzero", ",omitempty,omitzero"]
+# (the last three: an option spelled with a blank is an UNKNOWN option for encoding/json, which trims nothing: the field is always
+# written; blanks next to the NAME would change the JSON name and are left to gen_types.BLANK_TAGS)
+OPTS = ["", "", "", ",omitempty", ",omitzero", ",omitempty,omitzero", ",omitempty", ",omitzero", "", ", omitempty", ",omitzero ", ",omitempty , omitzero"]
 
 
 # the families of gen_families of the last gen_decls call: family -> bank names (see gen_families)
